@@ -84,7 +84,7 @@ def main():
         "setup_cmd": "./check build",
         "hooks": {
             "guard": "cargo feature `verif` (off by default)",
-            "enable": "harness crate /verif/harness depends on /repo with features = [\"verif\"] (read-only accessors; event sink complgen::verif filled by do_minimize when enabled); the complgen binary used by the checks is built with the feature OFF",
+            "enable": "harness crate /verif/harness depends on /repo with features = [\"verif\"] (read-only accessors; event sink complgen::verif filled by dfa_from_regex and do_minimize when enabled); the complgen binary used by the checks is built with the feature OFF",
             "baseline_off_cmd": "cd /repo && cargo test --workspace --no-fail-fast --offline",
             "source_commits": HOOK_COMMITS,
             "add_only": True,
@@ -98,6 +98,6 @@ def main():
     }
     json.dump(m, open(os.path.join(HERE, "MANIFEST.json"), "w"), indent=1)
 
-HOOK_COMMITS = ["74e87b2", "c98a0aa"]
+HOOK_COMMITS = ["74e87b2", "c98a0aa", "c6f531b"]
 if __name__ == "__main__":
     main()
